@@ -61,6 +61,12 @@ struct Cfg {
 
 struct Ctx;
 
+// an oracle verdict; also written to stderr at once, so that it is not lost if the broken mutex crashes the run later
+void Verdict(const std::string& what) {
+  vrt::Fail(what);
+  std::fprintf(stderr, "ORACLE %s\n", what.c_str());
+}
+
 struct ExecBase : yaclib::IExecutor {
   Ctx* c = nullptr;
   int id = 0;
@@ -107,7 +113,7 @@ struct Ctx {
   void Req(int id, const char* form) {
     vrt::Event("q" + S(id) + " " + form);
     if (phase[id] != 0) {
-      vrt::Fail("coroutine " + S(id) + " passed a suspension point twice (request)");
+      Verdict("coroutine " + S(id) + " passed a suspension point twice (request)");
     }
     phase[id] = 1;
     ++wanted[id];
@@ -115,24 +121,24 @@ struct Ctx {
   void Enter(int id) {
     vrt::Event("in" + S(id));
     if (phase[id] != 1) {
-      vrt::Fail("request of coroutine " + S(id) + " granted " + (phase[id] == 2 ? "twice" : "without a request"));
+      Verdict("request of coroutine " + S(id) + " granted " + (phase[id] == 2 ? "twice" : "without a request"));
     }
     phase[id] = 2;
     ++grants[id];
     if (++inside > 1) {
-      vrt::Fail("two coroutines are inside the critical section");
+      Verdict("two coroutines are inside the critical section");
     }
     auto it = std::find(outstanding.begin(), outstanding.end(), id);
     if (it != outstanding.end()) {
       if (cfg.fifo && it != outstanding.begin()) {
-        vrt::Fail("FIFO: waiter " + S(id) + " entered before waiter " + S(outstanding.front()) + " that arrived earlier");
+        Verdict("FIFO: waiter " + S(id) + " entered before waiter " + S(outstanding.front()) + " that arrived earlier");
       }
       outstanding.erase(it);
     }
   }
   void Leave(int id, const std::string& form) {
     if (phase[id] != 2) {
-      vrt::Fail("coroutine " + S(id) + " passed a suspension point twice (inside)");
+      Verdict("coroutine " + S(id) + " passed a suspension point twice (inside)");
     }
     phase[id] = 3;
     --inside;
@@ -141,14 +147,14 @@ struct Ctx {
   void Out(int id) {
     vrt::Event("o" + S(id));
     if (phase[id] != 3) {
-      vrt::Fail("coroutine " + S(id) + " passed a suspension point twice (unlock)");
+      Verdict("coroutine " + S(id) + " passed a suspension point twice (unlock)");
     }
     phase[id] = 0;
   }
   bool TryResult(int id, bool ok) {
     vrt::Event(std::string(ok ? "ty" : "tn") + S(id));
     if (ok && inside != 0) {
-      vrt::Fail("TryLock succeeded while a coroutine is inside the critical section");
+      Verdict("TryLock succeeded while a coroutine is inside the critical section");
     }
     if (ok) {
       phase[id] = 1;
